@@ -197,7 +197,18 @@ def run_chain(rec, grammars, ignore_mode, order, quick):
         sampler_inputs = [t for t in sm.sentences('start', 40) if len(t) <= 14]
     except Exception:
         pass
-    base_inputs = list(gen.all_strings(tokens[:5], 2)) + sampler_inputs
+    # near misses of the sampled sentences: one character replaced by another token character (what an
+    # inherited or overridden rule must REJECT is as telling as what it accepts)
+    near = []
+    singles = [t for t in tokens if len(t) == 1][:8]
+    for t in sampler_inputs[:12]:
+        for i in range(len(t)):
+            for c in singles:
+                if c != t[i]:
+                    near.append(t[:i] + c + t[i + 1:])
+    near = list(dict.fromkeys(near))
+    rec.rng.shuffle(near)
+    base_inputs = list(dict.fromkeys(list(gen.all_strings(tokens[:5], 2)) + sampler_inputs + near[:80 if quick else 400]))
     mods = []
     case0 = dict(kind='chain', grammars_repr=repr(grammars), descs=descs, ignore_mode=ignore_mode, order=order)
     parent_before = {}
